@@ -475,6 +475,75 @@ func intrinsic(name string, fn *ssa.Function, args []value, free []value) (value
 			}
 			return tuple{old, i >= 0}, true
 		}
+	case "(*strings.Builder).Grow", "(*bytes.Buffer).Grow", "(*strings.Builder).Reset", "(*bytes.Buffer).Reset":
+		key, _ := args[0].(*value)
+		if key == nil {
+			panic(rtp("nil pointer dereference"))
+		}
+		if strings.HasSuffix(name, "Reset") {
+			delete(builders, key)
+		}
+		return nil, true
+	case "(*strings.Builder).WriteString", "(*bytes.Buffer).WriteString", "(*strings.Builder).WriteByte", "(*bytes.Buffer).WriteByte",
+		"(*strings.Builder).WriteRune", "(*bytes.Buffer).WriteRune", "(*strings.Builder).Write", "(*bytes.Buffer).Write":
+		key, _ := args[0].(*value)
+		if key == nil {
+			panic(rtp("nil pointer dereference"))
+		}
+		cur, ok := builders[key]
+		if !ok {
+			cur = ""
+		}
+		var add value
+		var n value
+		switch {
+		case strings.HasSuffix(name, "WriteString"):
+			add = args[1]
+			n = strLen(add)
+		case strings.HasSuffix(name, "WriteByte"):
+			add = fromBytes([]value{args[1]})
+		case strings.HasSuffix(name, "WriteRune"):
+			r, isC := args[1].(int64)
+			if !isC {
+				panic(unsupported{"WriteRune of a symbolic rune"})
+			}
+			add = string(rune(r))
+			n = int64(len(string(rune(r))))
+		default:
+			sl, isS := args[1].(sliceVal)
+			if !isS {
+				panic(unsupported{"Write of " + describe(args[1])})
+			}
+			add = fromBytes(append([]value(nil), sl.s...))
+			n = int64(len(sl.s))
+		}
+		builders[key] = strConcat(cur, add)
+		if strings.HasSuffix(name, "WriteByte") {
+			return iface{}, true
+		}
+		return tuple{n, iface{}}, true
+	case "(*strings.Builder).String", "(*bytes.Buffer).String", "(*strings.Builder).Len", "(*bytes.Buffer).Len", "(*bytes.Buffer).Bytes":
+		key, _ := args[0].(*value)
+		if key == nil {
+			if strings.HasSuffix(name, "String") {
+				return "<nil>", true
+			}
+			panic(rtp("nil pointer dereference"))
+		}
+		cur, ok := builders[key]
+		if !ok {
+			cur = ""
+		}
+		switch {
+		case strings.HasSuffix(name, "Len"):
+			return strLen(cur), true
+		case strings.HasSuffix(name, "Bytes"):
+			if u, isU := cur.(*union); isU {
+				cur = splitUnion(u)
+			}
+			return sliceVal{append([]value(nil), toBytes(cur)...), 1}, true
+		}
+		return cur, true
 	case "os.Open":
 		name, _ := concretize(args[0]).(string)
 		if _, ok := jsonStubs[name]; !ok {
@@ -648,6 +717,7 @@ func jsonDecodeStub(doc *jsonStub, target iface) value {
 	return iface{}
 }
 
+var builders = map[*value]value{}
 var sortAssumed bool
 var inOnce int
 var syncUses = map[string]bool{}
